@@ -265,5 +265,20 @@ size_t strlcpy(char *dst, const char *src, size_t size);
 // as CURL_MAX_HTTP_HEADER
 #define HTP_MAX_HEADER_FOLDED 102400
 
+// Trace probes for the verification harness in /verif. Off by default: without
+// OISF_LIBHTP_VERIF every probe expands to nothing.
+#ifdef OISF_LIBHTP_VERIF
+#ifdef __cplusplus
+extern "C" {
+#endif
+void htp_verif_probe(const char *site, htp_connp_t *connp, long a, long b);
+#ifdef __cplusplus
+}
+#endif
+#define HTP_VERIF_PROBE(site, connp, a, b) htp_verif_probe((site), (connp), (long) (a), (long) (b))
+#else
+#define HTP_VERIF_PROBE(site, connp, a, b) ((void) 0)
+#endif
+
 #endif	/* _HTP_PRIVATE_H */
 
